@@ -3,9 +3,9 @@ from contracts import collections as co, emulsions as em, tracks as tk
 from pyvc.bounded import ContractSampling
 
 LEVEL = "other"
-LEVEL_TEXT = "Proved: SphericalDroplet.overlaps <=> surface distance < 0 in the same metric (Euclidean, or the uninterpreted grid metric so that a dropped grid= is noticed), for dims 1-3; in the 'distance' matcher the matrix handed to the greedy loop has one row per alive track's last position and one column per droplet of the frame and is computed with grid.distance(coords='cartesian') when a grid is given, Euclidean otherwise; links are created through the verified DropletTrack.append / constructor. The greedy-order, cut-off and one-to-one clauses are decided by the exhaustive small-scope oracle only - hence level 'other'."
+LEVEL_TEXT = "Proved: SphericalDroplet.overlaps <=> surface distance < 0 in the same metric (Euclidean, or the uninterpreted grid metric so that a dropped grid= is noticed), for dims 1-3; in the 'distance' matcher the matrix handed to the greedy loop has one row per alive track's last position and one column per droplet of the frame and is computed with grid.distance(coords='cartesian') when a grid is given, Euclidean otherwise; links are created through the verified DropletTrack.append / constructor. The 'overlap' matcher (match_tracks#0) is verified as a whole (any number of alive tracks / droplets): a droplet extends a track only if that track is an alive track whose last droplet overlaps it (tested with the grid's metric) AND it is the only such track; otherwise (none or several) it starts a new track - so identity is followed exactly when it is unambiguous, and a droplet overlapping nothing of the previous frame always starts a new track. For the 'distance' matcher the greedy-order, cut-off and one-to-one clauses are decided by the exhaustive small-scope oracle only (loops truncated) - hence level 'other'."
 LEVEL_NOTE = 'A-FP; A-PDE metric symmetric/non-negative; scipy cdist contract; functools.partial; loops of match_tracks truncated (bounded oracle: all 1-d lattice time courses incl. splits/merges/empty frames, all pairs of <=3-droplet frames with distinct distances, random 1-3-d courses)'
-CONTRACTS = [c.ident for c in (em.Overlaps(), tk.MatchDistancePre(), co.TrackAppend(), tk.TrackInit())]
+CONTRACTS = [c.ident for c in (em.Overlaps(), tk.MatchDistancePre(), tk.MatchOverlap(), co.TrackAppend(), tk.TrackInit())]
 LEMMAS = ["surface-distance-symmetric"]
 BOUNDED = [tk.TrackingOracle(), ContractSampling("overlap-predicate-on-real-droplets", [em.Overlaps().ident],
                                                  "12/200 droplet pairs per dimension, Euclidean and periodic metric")]
